@@ -20,6 +20,7 @@ from vf.sym import conc_int, untraced
 PROPERTY = "C06"
 FUNCTIONS = ["ArgsFormatBuilder.add_*/set_*/has_*/get_*/format", "ArgsFormat.__init__/_create_builder_for_elements/has_*/get_*", "CommandOption aliases"]
 PART = {}
+EXTRA_BOUNDS = 'also: batch calls add_arguments(a, b) / set_arguments(a, b) (skeleton kinds A2, SA2).'
 BOUNDS = {"quick": "operation skeletons of length 1-3 over {add_option, add_command_option, add_argument, add_command_name, set_options, set_command_options, set_arguments}; elements from a colliding pool (3 long names, 2 short names or none, 4 alias choices, 3 argument names x required/optional/optional-multi/required-multi; set_*() with one element or none); 0, 1 and 2 stacked base formats",
           "thorough": "skeletons up to length 4-5 (partitioned by the first element)"}
 OUTSIDE = ["sequences of 6-7 operations", "set_* with more than one element", "two different pools of base formats beyond the fixed three-level stack"]
